@@ -41,16 +41,21 @@ func (fri *filteringRefIterator) Next(rec record) (bool, error) {
 		}
 
 		if fri.doubleCheck {
-			it, err := fri.tab.SeekRef(ref.RefName)
+			name := ref.RefName
+			it, err := fri.tab.SeekRef(name)
 			if err != nil {
 				return false, err
 			}
 
 			ok, err := it.NextRef(ref)
-
-			// XXX !ok
-			if !ok || err != nil {
+			if err != nil {
 				return false, err
+			}
+			if !ok || ref.RefName != name {
+				// The ref was deleted in a newer table and the
+				// view hides deletions: the seek landed on a
+				// later ref, or on nothing.
+				continue
 			}
 		}
 
